@@ -219,13 +219,16 @@ class Oracle:
     def classify(self, u):
         """key of the known finding that alone explains the mismatch of `u`, else a generic key"""
         L = self.L
-        present = L.Neutral("ABCD")
+        present = L.Neutral("ABCDF")
         self.build(u, present)
-        for r in sorted(present.hits):
-            if self.holds(u, L.Neutral(r)):
+        known = sorted(present.hits - {"F"})
+        # (rule F, keeping float chains nested, is always allowed on top: a value that went
+        #  through a float-to-text conversion is compared exactly)
+        for r in known:
+            if self.holds(u, L.Neutral(r + "F")):
                 return KEYS[r]
-        if present.hits and self.holds(u, L.Neutral(present.hits)):
-            return KEYS[sorted(present.hits)[0]]
+        if known and self.holds(u, L.Neutral(present.hits)):
+            return KEYS[known[0]]
         return "c01-rendered-vs-reference-mismatch"
 
     def check(self, u):
@@ -343,7 +346,15 @@ def run(ctx, deep=False):
                 gcases.append({"u": u, "mask": mask})
                 greqs.append("expr parsedrop %d sqlite %s" % (mask, w))
     if ctx.driver_ok():
-        ctx.correspond("corr/c01:render(model text == compiler text, 5 dialects)", cases, impl_out, ctx.driver(reqs))
+        model_out = ctx.driver(reqs)
+        impl_out, ml_fail = L.reconcile_render(ctx, cases, impl_out, model_out, "C01")
+        ctx.correspond("corr/c01:render(model text == compiler text, 5 dialects)", cases, impl_out, model_out)
+        for f in ml_fail[:20]:
+            # only trees that do not carry one of the known grouping findings
+            pres = L.Neutral("ACD")
+            orc.build(f["case"]["u"], pres)
+            if not pres.hits:
+                ctx.violation("c01-model-level-misgrouping-" + f["case"]["dialect"], f["case"], f["detail"])
         # grammar: real SQLite vs the model's reading of the same token text
         gout = ctx.driver(greqs)
         gi, gm, gc = [], [], []
@@ -424,7 +435,30 @@ def search(ctx, broken):
         o.close()
 
 
+def replay_model_level(ctx, obj):
+    """re-read the compiler's current text of the tree with the model grammar"""
+    from harness import lib_expr as L
+    from harness import vlib
+
+    c = obj["case"]
+    e = L.to_sa(c["u"])
+    real = L.compile_literal(e, c["dialect"])
+    toks = L.lex_sql(real)
+    if toks is None or not ctx.driver_ok():
+        print("replay C01 (model-level): cannot lex / no driver")
+        return False
+    rt, ru = ctx.driver(["expr readtok %s %s" % (c["dialect"], " ".join(toks)),
+                         "expr readu %s %s" % (c["dialect"], " ".join(L.wire(c["u"])))])
+    rt, ru = rt.split(" "), ru.split(" ")
+    bad = rt[0] == "ok" and ru[0] == "ok" and rt[1] != ru[2]
+    print("replay C01 (model-level) %s text=%r reading=%s intended=%s" % (
+        c["dialect"], real, vlib.dec_str(rt[1]) if rt[1].startswith("s:") else rt[1], vlib.dec_str(ru[2])))
+    return bad
+
+
 def replay(ctx, obj):
+    if obj["case"].get("mode") == "model-level":
+        return replay_model_level(ctx, obj)
     orc = Oracle()
     try:
         u = obj["case"]["u"]
